@@ -7,7 +7,7 @@ SHARD_TIMEOUT = MP.SHARD_TIMEOUT
 
 
 def shards(tier, seed):
-    return MP.shards_for("C12", tier)
+    return MP.shards_for("C12", tier, seed)
 
 
 def run_shard(shard, rep):
